@@ -102,6 +102,26 @@ struct World
   std::optional<Conn> conns[CONNS];
   std::vector<long> invoked; // callback invocation log of the current call
   long dying = 0;            // cid of the connection being destroyed (for the unregister callback)
+  // a violation noticed inside an unregister callback: the callback runs inside a destructor that
+  // turns every exception into std::terminate, so it is recorded here and raised after the operation
+  std::string pending_cls, pending_detail;
+  void defer(std::string const &cls, std::string const &detail)
+  {
+    if (pending_cls.empty())
+    {
+      pending_cls = cls;
+      pending_detail = detail;
+    }
+  }
+  void raise_pending()
+  {
+    if (!pending_cls.empty())
+    {
+      std::string const c = pending_cls, d = pending_detail;
+      pending_cls.clear();
+      sim::violate(c, d);
+    }
+  }
   bool abandon = false; // set when the world is torn down after a violation
   ~World() { abandon = true; }
 
@@ -345,12 +365,15 @@ void World::on_unregister(long cid)
   sim::fault::Harness h;
   Conn *c = conn_by_cid(cid);
   if (c == nullptr)
-    sim::violate("unregister-unknown", "unregister callback for a connection that does not exist: " + std::to_string(cid));
+  {
+    defer("unregister-unknown", "unregister callback for a connection that does not exist: " + std::to_string(cid));
+    return;
+  }
   ++c->unreg_runs;
   if (dying != cid)
-    sim::violate("unregister-early", "unregister callback of connection " + std::to_string(cid) + " ran although it is not being destroyed");
+    defer("unregister-early", "unregister callback of connection " + std::to_string(cid) + " ran although it is not being destroyed");
   if (c->unreg_runs != 1)
-    sim::violate("unregister-twice", "unregister callback of connection " + std::to_string(cid) + " ran " + std::to_string(c->unreg_runs) + " times");
+    defer("unregister-twice", "unregister callback of connection " + std::to_string(cid) + " ran " + std::to_string(c->unreg_runs) + " times");
   // the documented use (examples/signal/unregister.cpp): look at empty() to see whether this was
   // the last connection; the dying connection is no longer a member
   int const s = c->sig;
@@ -360,7 +383,7 @@ void World::on_unregister(long cid)
     rest.erase(std::find(rest.begin(), rest.end(), cid));
     bool const e = sigs[s]->empty();
     if (e != rest.empty())
-      sim::violate("membership-in-unregister", "inside the unregister callback of " + std::to_string(cid) + " signal.empty() is " + std::to_string(e) + " but " + std::to_string(rest.size()) + " other connections are alive");
+      defer("membership-in-unregister", "inside the unregister callback of " + std::to_string(cid) + " signal.empty() is " + std::to_string(e) + " but " + std::to_string(rest.size()) + " other connections are alive");
     ctx.probe("unregister_saw_signal");
     if (e && c->destroy_signal_when_empty)
     {
@@ -384,6 +407,7 @@ void World::destroy_conn(unsigned ci, std::string const &n)
   int const s = c.sig;
   nothrow(n, [&] { c.handle.reset(); });
   dying = 0;
+  raise_pending();
   if (c.with_unreg)
     SIM_CHECK(c.unreg_runs == 1, "unregister-exactly-once", "unregister callback of connection " + std::to_string(cid) + " ran " + std::to_string(c.unreg_runs) + " times at its death");
   else
